@@ -141,7 +141,15 @@ impl Outcome {
             Outcome::Ok(rows) => {
                 let mut r = rows.clone();
                 r.sort();
-                format!("ok {} rows #{:016x}", rows.len(), Fnv::of(format!("{r:?}").as_bytes()))
+                // multiset digest, and the digest of the sequence as returned (so that the event
+                // log - and the determinism check over it - also sees the order of rows, which
+                // depends on hash-map iteration order and scan interleaving)
+                format!(
+                    "ok {} rows #{:016x} ~{:08x}",
+                    rows.len(),
+                    Fnv::of(format!("{r:?}").as_bytes()),
+                    Fnv::of(format!("{rows:?}").as_bytes()) as u32
+                )
             }
             Outcome::Err(e) => format!("err {}", first_line(e)),
             Outcome::Panic(e) => format!("PANIC {}", first_line(e)),
